@@ -34,10 +34,22 @@ def main(argv):
         racrun.run_bounded_rac(a.pid, rac, out, tier)
     if out.violations:
         from . import replay
+        # one violation (and one replay file) per failed obligation; further messages of the same obligation are attached
+        merged = {}
+        for v in out.violations:
+            if v['obligation'] in merged:
+                merged[v['obligation']].setdefault('more', []).append({'message': v['message'], 'spans': v.get('spans')})
+            else:
+                merged[v['obligation']] = v
+        out.violations = list(merged.values())
+        cache = {}
         for v in out.violations:
             found = None
             try:
-                found = replay.search_counterexample(a.pid, v)
+                key = (v.get('unit'), v.get('function'))
+                if key not in cache:
+                    cache[key] = replay.search_counterexample(a.pid, v)
+                found = cache[key]
             except Exception as e:  # the search is best-effort; never masks the violation
                 v['replay_search_error'] = repr(e)
             path = driver.write_replay(a.pid, v, found)
